@@ -125,7 +125,7 @@ PROPS["C07"] = Prop(
     "verified by Verus against the control-flow reading of the property (spec_stmts / spec_stmt / spec_if / spec_while / spec_for): "
     "for every behaviour of the callees (uninterpreted contracts), every statement list, every nesting, with no bound. "
     "Partial correctness (termination of user loops is not claimed).",
-    vunits=[V_CTL],
+    vunits=[V_CTL, VUnit('call', 'call', ['eval::eval_call'])],
     assumptions=[
         "eval_stmts / eval_stmts_in_new_scope (scope push, parameter binding, delegation to the sequence evaluator) are under an assumed contract here",
         "eval_call's treatment of the signal at the call boundary is a separate unit (V-call) if present",
@@ -161,7 +161,7 @@ PROPS["C17"] = Prop(
     "EvalBuiltinFuncCallFailed is invisible to the renderer, each user-call wrapper yields exactly one stack-trace line. "
     "(2) Located-ness as an inductive postcondition `located(e)` (AtLoc, or a context wrapper of a located error) on every function "
     "of the V units: assuming callees return located errors, the function returns located errors.",
-    vunits=[V_RENDER, V_CTL, V_RANGE],
+    vunits=[V_RENDER, V_CTL, V_RANGE, VUnit('name_bind', 'name_bind', ['bind::bind_next_name', 'bind::bind_name']), VUnit('list_bind', 'list_bind', ['bind::bind_list']), VUnit('call', 'call', ['eval::eval_call'])],
     assumptions=[
         "message TEXT is not under contract (format! is opaque): 'human-readable, no internal identifier' follows from transparency + located-ness only for errors whose Display text is human-readable",
         "stdout/stderr ordering and exit status 103 (process-level, main is I/O) are not under contract",
@@ -193,6 +193,7 @@ PROPS["C20"] = Prop(
 
 
 V_LIST = VUnit("list_bind", "list_bind", ["bind::bind_list"])
+V_CALL = VUnit("call", "call", ["eval::eval_call", "value::new_val_ref_with_no_source", "value::new_null", "value::new_list"])
 
 PROPS["C13"] = Prop(
     "C13", "proof",
@@ -200,7 +201,7 @@ PROPS["C13"] = Prop(
     "(or at least n-1 with a final ..rest), pattern i bound to element i left to right, rest = a fresh list of exactly xs[n-1..] "
     "(so prefix + rest == xs, lemma), spread item rejected, no index underflow/OOB; bind_next external (any behaviour). "
     "Unit V-name contributes the once-per-pattern name set clause.",
-    vunits=[V_LIST, V_NAME],
+    vunits=[V_LIST, V_NAME, V_CALL],
     assumptions=[
         "grammar invariant: `..` (collect) is only produced together with a pattern/parameter (ParamList, ReverseExprList in parser.lalrpop, by inspection)",
         "A-lock: list cell modelled as exclusively owned",
